@@ -33,6 +33,12 @@
       carries the group's name and no sub-group is expected, whatever sub-group
       label it has ([needs_patch_with]; [patch_fix] is the current value).
     Every definition without the suffix [_with] is the code as it is.
+    podGroupsEqual compares labels and annotations with [mapsEqualBySourceKeys(new, old)]:
+    source = what the grouper computes, target = the stored PodGroup, whose further keys (the
+    scheduler's timestamp annotations, an administrator's labels, keys removed from the owner
+    later) are ignored. The stored PodGroup carries arbitrary label / annotation maps and a
+    foreign update ([foreign_upd]: [f_labels], [f_annots]) may set or delete any key of them.
+    [pg_equal_swapped] - the two map arguments exchanged - is NOT a version of the code.
 
     Left out / oracles: all other plugins (kubeflow, ray, spark, jobset, grove,
     lws, knative, cronjob, runaijob, aml, spotrequest, notebook) give
@@ -717,9 +723,19 @@ Definition ignore_sg_v0 := false.
 Definition pg_equal_v1 := pg_equal_with true.
 Definition ignore_sg_v1 := true.
 
-(** the code as it is *)
+(** the code as it is: [mapsEqualBySourceKeys(new, old)] — "every key the grouper computes is on the stored
+    PodGroup with the same value"; keys the stored PodGroup carries in addition belong to other actors *)
 Definition pg_equal := pg_equal_v1.
 Definition ignore_sg := ignore_sg_v1.
+
+(** NOT the code: the comparison with the two map arguments the other way round,
+    [mapsEqualBySourceKeys(old, new)] — "every key of the stored PodGroup is computed by the grouper" (the
+    seeded change C18-2). Used only by the theorem that shows what the direction is for. *)
+Definition pg_equal_swapped (old new : pg) : bool :=
+  spec_eqb old new
+  && list_eqb owner_ref_eqb (pg_owners old) (pg_owners new)
+  && maps_equal_by_source_keys true (pg_labels old) (pg_labels new)
+  && maps_equal_by_source_keys true (pg_annots old) (pg_annots new).
 
 (** copyStringMap *)
 Definition copy_string_map (source target : option smap) : option smap :=
@@ -792,13 +808,18 @@ Definition reconcile_with (af pf sg : bool) (eq : pg -> pg -> bool) (cfg : confi
     ({| st_pgs := st_pgs (fst r); st_asg := aset (p_name p) (m_name m) (st_asg (fst r)) |}, (snd r + w)%Z)
   end.
 
-(** a foreign actor's update of the fields it owns; [None] = leave alone *)
+(** a foreign actor's update of the fields it owns; [None] = leave alone. [f_labels] / [f_annots]: any other
+    label / annotation keys of the stored PodGroup (the scheduler's kai.scheduler/last-start-timestamp and
+    kai.scheduler/stale-podgroup-timestamp annotations, an administrator's keys), applied in order:
+    [(k, Some v)] sets, [(k, None)] deletes *)
 Record foreign_upd := {
   f_queue : option string;
   f_mark : option (option bool);
   f_backoff : option (option Z);
   f_nodepool : option (option string);      (* Some None = delete the label *)
-  f_qlabel : option (option string)
+  f_qlabel : option (option string);
+  f_labels : list (string * option string);
+  f_annots : list (string * option string)
 }.
 Definition upd_label (k : string) (u : option (option string)) (l : smap) : smap :=
   match u with
@@ -806,10 +827,13 @@ Definition upd_label (k : string) (u : option (option string)) (l : smap) : smap
   | Some None => adel k l
   | Some (Some v) => aset k v l
   end.
+Definition upd_keys (us : list (string * option string)) (l : smap) : smap :=
+  fold_left (fun l u => upd_label (fst u) (Some (snd u)) l) us l.
 Definition foreign_apply (cfg : config) (f : foreign_upd) (g : pg) : pg :=
-  let l0 := match pg_labels g with None => [] | Some l => l end in
+  let l0 := upd_keys (f_labels f) (match pg_labels g with None => [] | Some l => l end) in
   let l := upd_label (c_queue_key cfg) (f_qlabel f) (upd_label (c_nodepool_key cfg) (f_nodepool f) l0) in
-  norm {| pg_labels := Some l; pg_annots := pg_annots g; pg_owners := pg_owners g;
+  let a := upd_keys (f_annots f) (match pg_annots g with None => [] | Some a => a end) in
+  norm {| pg_labels := Some l; pg_annots := Some a; pg_owners := pg_owners g;
           sp_min := sp_min g;
           sp_queue := match f_queue f with Some q => q | None => sp_queue g end;
           sp_prio := sp_prio g; sp_preempt := sp_preempt g;
